@@ -116,12 +116,12 @@ theorem derived_variant_name (go : List PName → Option Bytes → TyExpr → DO
       simp [hsh] at h
       cases hr : deriveTupleFieldsWith go dflt tys 0 named ns with
       | none => simp [hr] at h
-      | some r2 => simp [hr] at h; rw [← h.1]; rfl
+      | some r2 => simp only [hr] at h; rw [(recordOf_some h).1]; rfl
     | struct fields =>
       simp [hsh] at h
       cases hr : deriveFieldsWith go goF dflt (v.renameAll.or rf) fields named ns with
       | none => simp [hr] at h
-      | some r2 => simp [hr] at h; rw [← h.1]; rfl
+      | some r2 => simp only [hr] at h; rw [(recordOf_some h).1]; rfl
 
 theorem derived_variants_are_serde_variants (go : List PName → Option Bytes → TyExpr → DOut) (goF : List PName → Option Bytes → TyExpr → DFields) (dflt : TyExpr → Option Json) (r rf : RenameRule) :
     ∀ (vs : List VariantDef) (named : List PName) (ns : Option Bytes) out named',
